@@ -90,3 +90,10 @@ Theorem C13_length_requests_bounded : forall fault b pf,
   N.of_nat (length (snd (length_blk fault b pf))) <= tree_links b.
 Proof. exact length_requests_bounded. Qed.
 Print Assumptions C13_length_requests_bounded.
+
+(* the file reader on ANY block DAG (hostile sizes included), from any offset: the effect stream consumed by Read after
+   opening or seeking - block requests and per-block byte runs - has fewer than two events per node of the unfolded DAG *)
+From UV Require Import File.Reader File.WorkBound.
+Theorem C13_file_stream_bounded : forall fault b off, slen (stream fault b off) + 1 <= 2 * tnodes b.
+Proof. exact stream_events_bounded. Qed.
+Print Assumptions C13_file_stream_bounded.
